@@ -23,6 +23,7 @@ TAG_MENU = [
     "bb:B:s,-1,128", "bb:B:i,-1,32768", "bb:B:c,-128,127", "bb:B:S,256",
     "bb:B:I,65536", "bb:B:s,-129,0", "bb:B:i,-32769,1", "bb:B:i,-1,2147483647",
     "zz:Z:trailing blanks  ", "zz:Z: ", "hh:H:00FF",
+    'jj:J:["Andr\\u00e9", "\\u007f"]', 'jj:J:{"k\\u00fc": "\\n"}', "zz:Z:*", "aa:A:*", "jj:J:[]", "jj:J:{}",
 ]
 
 GFA1_SEG = {"A": T(["S", "A", "ACGT"]), "B": T(["S", "B", "*", "LN:i:5"]),
@@ -393,6 +394,12 @@ def special_documents():
                                 T(["H", "xx:B:c,2"]), T(["H", "VN:Z:" + vn])]))
     docs.append(("headers", v, [T(["H", "aa:A:x", "ff:f:1.5", "hh:H:1A"]),
                                 T(["H", "hh:H:2B"]), T(["H", "ff:f:2"])]))
+    for first, second in (("ns:Z:*", "ns:Z:chr1"), ("fl:A:*", "fl:A:x"),
+                          ("js:J:[]", "js:J:[1]"), ("js:J:{}", 'js:J:{"a": 1}'),
+                          ("ns:Z:chr1", "ns:Z:*"), ("ni:i:0", "ni:i:5"),
+                          ("nf:f:0.0", "nf:f:1.5")):
+      docs.append(("headers", v, [T(["H", first]), T(["H", second])]))
+      docs.append(("headers", v, [T(["H", first]), T(["H", second]), T(["H", first])]))
     docs.append(("empty", v, []))
     docs.append(("comments", v, ["# one", "#two", "#\tthree", "#"]))
     docs.append(("comments", v, ["# trailing blanks  ", "#  ", "# x\t"]))
